@@ -136,7 +136,10 @@ def _run(a, pid, tier, seed, t0):
         models, states, trans, actions = run_models(pid, tier, REGISTRY)
         log(f'[{pid}] models: ' + ', '.join(f"{m['model']}={m['states']}st/{m['wall_s']}s{'(cached)' if m['cached'] else ''}" for m in models))
         # B --------------------------------------------------------------------------------------------------
-        programs = scen.GENERATORS[pid](tier, seed)
+        import scen2
+        gens = dict(scen.GENERATORS)
+        gens.update(scen2.GENERATORS2)
+        programs = gens[pid](tier, seed)
     ids = set()
     for p in programs:
         if p['id'] in ids:
